@@ -25,7 +25,8 @@ EXPR_KINDS = {'unset': None, 'int': 'n', 'float': 'f', 'bool': 'b', 'numstr': 'n
               'arith': 'n * 2 + G', 'none': 'nothing', 'list': 'lst', 'raises_base': 'boom_base()',
               # an int no float can hold (float() raises OverflowError): not a number the processors can be given
               'hugeint': 'G ** 400'}
-LABEL_KINDS = ['none', 'static_str', 'static_int', 'static_float', 'static_bool', 'expr', 'expr_global', 'failing']
+LABEL_KINDS = ['none', 'static_str', 'static_int', 'static_float', 'static_bool', 'expr', 'expr_global', 'failing',
+               'expr_tuple', 'expr_one_tuple', 'expr_none']
 class HostBase(BaseException):
     pass
 
@@ -74,6 +75,12 @@ def label_spec(kind, i):
         return key, None, 'G + n'
     if kind == 'failing':
         return key, None, 'nope.x'
+    if kind == 'expr_tuple':
+        return key, None, '(n, s)'
+    if kind == 'expr_one_tuple':
+        return key, None, '(s,)'
+    if kind == 'expr_none':
+        return key, None, 'nothing'
     return None
 
 
